@@ -75,7 +75,8 @@ def make_outcome(how):
     if kind == "none":
         return ("return", None)
     if kind == "val":
-        return ("return", {"0": 0, "0.0": 0.0, "False": False, "''": "", "[]": [], "()": (), "x": "x", "obj": object(), "1": 1, "awaitable": Awaitable()}[what])
+        return ("return", {"0": 0, "0.0": 0.0, "False": False, "''": "", "[]": [], "()": (), "x": "x", "obj": object(), "1": 1, "awaitable": Awaitable(),
+                           "excobj": UserExc("returned, not raised"), "baseobj": UserBase("returned, not raised")}[what])
     if kind in ("exc", "base"):
         cls = {"LookupError": LookupError, "UserExc": UserExc, "UserExcSub": UserExcSub, "ValueError": ValueError, "RuntimeError": RuntimeError, "FalsyExc": FalsyExc, "TimeoutError": TimeoutError, "CancelledError": asyncio.CancelledError,
                "UserBase": UserBase, "SystemExit": SystemExit, "KeyboardInterrupt": KeyboardInterrupt, "GeneratorExit": GeneratorExit}[what]
@@ -186,6 +187,13 @@ class Harness:
                     async def private_trio():
                         await trio.to_thread.run_sync(lambda: h.do_execute(cmd["target"], "owntrio:" + pid, cmd["how"], cmd.get("slow", 0.0)))
                     trio.run(private_trio)
+                elif cmd.get("own_loop") == "direct" and flavour == "threading":
+                    # straight from a coroutine of the private loop (which it blocks meanwhile -
+                    # its own business): the calling thread HAS a running loop, a foreign one
+                    async def private_direct():
+                        h.do_execute(cmd["target"], "ownloopdirect:" + pid, cmd["how"], cmd.get("slow", 0.0))
+                        await asyncio.sleep(0)
+                    asyncio.run(private_direct())
                 elif cmd.get("own_loop") and flavour == "threading":
                     async def private():
                         await asyncio.get_running_loop().run_in_executor(None, lambda: h.do_execute(cmd["target"], "ownloop:" + pid, cmd["how"], cmd.get("slow", 0.0)))
@@ -534,6 +542,8 @@ class Harness:
         """perform an API call in the given context"""
         if ctx.startswith("owntrio:"):
             self.command(ctx.split(":", 1)[1], dict(payload_cmd, own_loop="trio"))
+        elif ctx.startswith("ownloopdirect:"):
+            self.command(ctx.split(":", 1)[1], dict(payload_cmd, own_loop="direct"))
         elif ctx.startswith("ownloop:"):
             self.command(ctx.split(":", 1)[1], dict(payload_cmd, own_loop=True))
         elif ctx.startswith("payload:"):
